@@ -237,7 +237,7 @@ def spawn_join(fx, crates=("libxcp", "xcp")):
     if "xcp" in crates and MAIN in fx.fns:
         roots.append(MAIN)
     for rt in roots:
-        v = views.view(fx, rt, depth=6)
+        v = views.view(fx, rt, depth=9)
         _spawn_join_in(fx, v, obs, covered)
     for f in ro.fns_in_scope(fx, crates=crates):
         if f.is_closure and _closure_produces_handle(fx, f.path):
@@ -279,7 +279,7 @@ def sender_protocol(fx):
     for d in ENTRY_POINTS:
         if d not in fx.fns:
             continue
-        f = views.view(fx, d, depth=6)
+        f = views.view(fx, d, depth=9)
         du = defuse(f)
         found = 0
         for bi, t in q.calls_to(f, UNBOUNDED):
@@ -318,7 +318,7 @@ def sender_protocol(fx):
                                   cf.loc() if cf else "", c,
                                   "the closure owning the sender (by value: %s) is the role that walks the tree: %s" % (byv, okw)))
                     # the walker role does not stash the sender away
-                    wv = views.view(fx, c, depth=6)
+                    wv = views.view(fx, c, depth=9)
                     leaks = []
                     if wv is not None:
                         for bi2, t2 in wv.calls():
@@ -813,7 +813,7 @@ def pool_join_before_ok(fx):
         pj = [bi for bi, t in q.calls_to(f, POOL_JOIN)]
         oks = ok_blocks(f)
         own = oks
-        ok = bool(pj) and bool(own) and all(any(cfg.dominates(j, o) for j in pj) for o in own)
+        ok = bool(pj) and bool(own) and all(cfg.set_dominates(pj, o) for o in own)
         obs.append(Ob("R-THREAD", mkkey("R-THREAD", "role:pool-owner", POOL_JOIN, 0, "before-Ok"), ok, f.loc(), lab,
                       "the dispatcher waits for the block pool before returning Ok: %s" % ok,
                       None if ok else dict(pool_join=pj, ok_blocks=own)))
